@@ -263,8 +263,20 @@ static void do_misc(vf_case *c) {
 	rpt_clear(&P); rpt_clear(&E);
 }
 
+/* Canonical two-step selection history: every curve is selected right after a curve of another kind, in the sweep and in a replay alike, so that
+ * what a set leaves behind for the next one (flags, table layouts) is part of every case and a violation caused by it reproduces in a fresh process. */
+static int select_hist(long cid) {
+	if (cid == cur_cid) return 1;
+#if WSIZE == 64 && FP_PRIME == 256
+	{ long pred = (cid == SECG_K256 || cid == BN_P256 || cid == SM9_P256) ? NIST_P256 : SECG_K256; (void)select_curve(pred); }
+#elif WSIZE != 64
+	if (ntc > 1 && cid >= 0 && cid < ntc) (void)select_curve((cid + 1) % ntc);
+#endif
+	return select_curve(cid);
+}
+
 static void run_case(vf_case *c) {
-	if (!select_curve(mpz_get_si(c->v[0]))) { vf_fail(NULL, "curve %ld could not be installed", mpz_get_si(c->v[0])); return; }
+	if (!select_hist(mpz_get_si(c->v[0]))) { vf_fail(NULL, "curve %ld could not be installed", mpz_get_si(c->v[0])); return; }
 	vf_nontrivial();
 	if (!strcmp(c->op, "law")) do_law(c); else if (!strcmp(c->op, "mul")) do_mul(c); else if (!strcmp(c->op, "sim")) do_sim(c);
 	else if (!strcmp(c->op, "lot")) do_lot(c); else if (!strcmp(c->op, "misc")) do_misc(c); else vf_fail(NULL, "unknown op");
@@ -321,7 +333,7 @@ static void enumerate(void) {
 		char bn[64]; snprintf(bn, sizeof bn, "tiny-cayley-curve-%d", cay[ci]);
 		if (!vf_tier && ci >= 3) continue; /* quick: three complete tables, thorough: all five */
 		if (!vf_bound_on(bn)) continue;
-		long cid = cay[ci]; if (!select_curve(cid)) { vf_fail(NULL, "curve install failed"); continue; }
+		long cid = cay[ci]; if (!select_hist(cid)) { vf_fail(NULL, "curve install failed"); continue; }
 		tiny_curve *c = &TC[cid];
 		/* list every point */
 		long np = 0; long *px = malloc(sizeof(long) * (size_t)(2 * c->p + 2)), *py = malloc(sizeof(long) * (size_t)(2 * c->p + 2));
@@ -344,7 +356,7 @@ static void enumerate(void) {
 	for (unsigned ci = 0; ci < sizeof sc / sizeof *sc; ci++) {
 		char bn[64]; snprintf(bn, sizeof bn, "tiny-all-scalars-curve-%d", sc[ci]);
 		if (!vf_bound_on(bn)) continue;
-		long cid = sc[ci]; if (!select_curve(cid)) { vf_fail(NULL, "curve install failed"); continue; }
+		long cid = sc[ci]; if (!select_hist(cid)) { vf_fail(NULL, "curve install failed"); continue; }
 		long n = TC[cid].r;
 		for (int pt = 0; pt < (vf_tier ? 2 : 1); pt++) {
 			if (pt) { mpz_set_si(k, 12345); rpt_mul(&RC, &P, &RG, k); } else rpt_set(&P, &RG);
@@ -390,7 +402,7 @@ static void enumerate(void) {
 	for (unsigned ci = 0; ci < sizeof IDS / sizeof *IDS; ci++) {
 		char bn[64]; snprintf(bn, sizeof bn, "w64-curve-%d", IDS[ci]);
 		if (!vf_bound_on(bn)) continue;
-		long cid = IDS[ci]; if (!select_curve(cid)) { vf_fail(NULL, "ep_param_set(%ld) failed", cid); continue; }
+		long cid = IDS[ci]; if (!select_hist(cid)) { vf_fail(NULL, "ep_param_set(%ld) failed", cid); continue; }
 		vf_dom S; vf_dom_init(&S); scalar_alphabet(&S);
 		/* points: infinity, G, 2G, -G, 3 fixed multiples */
 		rpt pts[8]; int npt = 0; long ds[] = {0, 1, 2, -1, 5, 0x12345, -77};
